@@ -76,48 +76,42 @@ async fn recognize(stream: &mut TcpStream) -> Result<Proxy, anyhow::Error> {
     }
 }
 
-fn recognize_http(method: &str, mut path: &str) -> Result<Proxy, anyhow::Error> {
-    if let Some(i) = path.rfind('?') {
-        path = &path[..i];
-    }
-    if path.ends_with('/') {
-        path = &path[..path.len() - 1];
-    }
-    if let Some(i) = path.find("://").map(|i| i + 3) {
-        if let Some(j) = path[i..].find('/').map(|j| j + i) { path = &path[i..j] } else { path = &path[i..] }
-    }
+fn recognize_http(method: &str, target: &str) -> Result<Proxy, anyhow::Error> {
     if "CONNECT" == method {
-        let h_end = path.rfind(':').ok_or_else(|| anyhow!("invalid http CONNECT uri"))?;
-        let host = path[..h_end].to_owned();
-        let port = path[h_end + 1..].parse()?;
+        // authority-form: host ":" port
+        let (host, port) = split_authority(target)?;
+        let port = port.ok_or_else(|| anyhow!("invalid http CONNECT uri"))?;
         Ok(Proxy::Https(Address::Domain(host, port)))
     } else {
-        let h_end = path.rfind(':');
-        let h_v6_end = path.rfind(']');
-        enum Port {
-            Parse(usize),
-            Default,
-        }
-        if let Port::Parse(index) = match (h_end, h_v6_end) {
-            (None, _) => Port::Default,
-            (Some(h_end), None) => Port::Parse(h_end),
-            (Some(h_end), Some(h_v6_end)) => {
-                if h_end < h_v6_end {
-                    Port::Default
-                } else {
-                    Port::Parse(h_end)
-                }
-            }
-        } {
-            let p_start = index + 1;
-            let host = path[..index].to_owned();
-            let port = path[p_start..].parse()?;
-            Ok(Proxy::Http(Address::Domain(host, port)))
-        } else {
-            let host = path.to_owned();
-            Ok(Proxy::Http(Address::Domain(host, 80)))
-        }
+        // absolute-form: "http://" authority [ "/" path ] [ "?" query ]; nothing else names a host to connect to
+        let rest = match target.get(..7) {
+            Some(scheme) if scheme.eq_ignore_ascii_case("http://") => &target[7..],
+            _ => bail!("unsupported http request target: {}", target),
+        };
+        let authority = &rest[..rest.find(['/', '?', '#']).unwrap_or(rest.len())];
+        let (host, port) = split_authority(authority)?;
+        Ok(Proxy::Http(Address::Domain(host, port.unwrap_or(80))))
     }
+}
+
+/// host [ ":" port ], where host is a name, an IPv4 literal or a bracketed IPv6 literal (kept with its brackets)
+fn split_authority(authority: &str) -> Result<(String, Option<u16>), anyhow::Error> {
+    let (host, port) = if authority.starts_with('[') {
+        let end = authority.find(']').ok_or_else(|| anyhow!("invalid host: {}", authority))?;
+        (&authority[..=end], &authority[end + 1..])
+    } else {
+        let end = authority.find(':').unwrap_or(authority.len());
+        (&authority[..end], &authority[end..])
+    };
+    if host.is_empty() || host == "[]" || host == "*" || host.contains(['[', ']', '@', ' ']) && !host.starts_with('[') {
+        bail!("invalid host: {}", authority);
+    }
+    let port = match port.strip_prefix(':') {
+        Some(port) => Some(port.parse()?),
+        None if port.is_empty() => None,
+        None => bail!("invalid host: {}", authority),
+    };
+    Ok((host.to_owned(), port))
 }
 
 #[cfg(feature = "verif")]
